@@ -152,7 +152,8 @@ def work(item):
                 n_alloc += 1
         st.ev()
         if ck0 != ck1:
-            st.violation("tables-modified", dict(history=hist_desc[:60]), ck0, ck1)
+            tables_same = len(state) > 11 and state[11] == "1"
+            st.violation("trace-left:static-state-outside-the-tables" if tables_same else "tables-modified", dict(history=hist_desc[:60]), ck0, ck1)
         if nranges == 0:
             st.violation("infra:no-library-ranges", dict(), "> 0 ranges", 0)
         if not loc_ok:
@@ -211,7 +212,8 @@ def work_orders(item):
     for which, o in (("generation order", out1), ("shuffled order", out2)):
         state = o[-1].split("\t")
         if state[1] != state[2]:
-            st.violation("tables-modified", dict(functions=fns, mode=which), state[1], state[2])
+            tables_same = len(state) > 11 and state[11] == "1"
+            st.violation("trace-left:static-state-outside-the-tables" if tables_same else "tables-modified", dict(functions=fns, mode=which), state[1], state[2])
         if state[3] != "1":
             st.violation("locale-changed", dict(functions=fns, mode=which), "locale unchanged", None)
         if len(state) > 10 and state[10] != "1":
@@ -243,7 +245,9 @@ def run(ctx):
     rangesf = os.path.join(ctx.sdir, "ranges.txt")
     with open(rangesf, "w") as f:
         for a, s, w in ranges:
-            f.write("%x %x\n" % (a, s))
+            # third column: 1 = storage of the shipped data tables (the generated table object and the table pointer object), 0 = any other
+            # static storage of the library
+            f.write("%x %x %d\n" % (a, s, 1 if ("xrayglob" in w or "xrayvars" in w) else 0))
     ctx.extra["hashed_ranges"] = len(ranges)
     ctx.extra["hashed_bytes"] = sum(s for a, s, w in ranges)
     global COMMA
